@@ -75,7 +75,7 @@ def comment_regex(D):
     return re.compile("(?:" + "|".join(parts) + ")*", re.S)
 
 
-_PRIMERS = ["SELECT 1\n", "SELECT 'a\nb'\r\n", "x -- c\n", "SELECT 1 /* c */\r", "'unterminated"]
+_PRIMERS = ["SELECT 1\n", "SELECT 'a\nb'\r\n", "x -- c\n", "SELECT 1 /* c */\r", "'unterminated", "/* only a comment */\n", "/* c */ 'unterminated"]
 
 
 def check_tokens(ctx, sql, d, D, gap_re, case, reused=None, k=0):
